@@ -1,10 +1,13 @@
 (* Concatenator driver (C16, C12, C03): same line protocol and answer format as
    harness/src/bin/concat.rs; the driver loop is the extracted coq/model/ConcatRun.v.
-     RUN <N|F> <new|wK> <-|all|i,j,..> <cap,..> <fuel> <task>...     task = F | C<hex>|C- | X
+     RUN <N|F> <new|wK> <-|all|i,j,..> <[p:]cap,..> <fuel> <task>...     task = F | C<hex>|C- | X
      S16 <answer line of the implementation>      -> OK | FAIL ... | INV ...   (coq/spec/ConcatSpec.v)
      S12 <final1> <out1> <final2> <out2>          -> OK | FAIL
      PWS <b0> <b1>                                -> model parse_window_size vs rfc_wbits on a 2-byte prefix
-     CSPEC <wK|new> <hex member>...               -> bit-level concatenation spec: OK <hex> | NONE *)
+     CSPEC <wK|new> <hex member>...               -> bit-level concatenation spec: OK <hex> | NONE
+     SWEEP <api> <init> <restore> <caps> <b0> <slices|-> <cont,cont,..> <pre tasks joined by +|->
+        for b1 in 0..255, for each continuation: member = b0 b1 cont, script = pre F chunks X
+        -> n=<cases> hash=<over the answers> bad=<indices with PANIC/LOOP> spec=<failing c16_call_ok> inv=<..> *)
 let ns_of_hex s = if s = "-" then [] else Stdlib.List.map n_of_int (hex_to_ints s)
 let hex_of_ns l = if l = [] then "-" else ints_to_hex (Stdlib.List.map int_of_n l)
 let ints_of_csv s = if s = "-" || s = "" then [] else
@@ -31,6 +34,8 @@ let parse_task t =
 let run_req api init restore caps fuel tasks =
   let rall = (restore = "all") in
   let rs = if rall then [] else Stdlib.List.map n_of_int (ints_of_csv restore) in
+  let percall = Stdlib.String.length caps > 2 && Stdlib.String.sub caps 0 2 = "p:" in
+  let caps = if percall then Stdlib.String.sub caps 2 (Stdlib.String.length caps - 2) else caps in
   let caps = Stdlib.List.map n_of_int (ints_of_csv caps) in
   let fuel = nat_of_int (int_of_string fuel) in
   let tasks = Stdlib.List.map parse_task tasks in
@@ -38,11 +43,11 @@ let run_req api init restore caps fuel tasks =
   if api = "F" then begin
     let st = if init = "new" then broccoli_create
       else broccoli_create_with_window_size (n_of_int (int_of_string (Stdlib.String.sub init 1 (Stdlib.String.length init - 1)))) in
-    match st with Panic -> panic_at_init | Val st -> answer (run_ffi fuel caps rall rs tasks st)
+    match st with Panic -> panic_at_init | Val st -> answer (run_ffi fuel caps percall rall rs tasks st)
   end else begin
     let s = if init = "new" then Val bc_new
       else new_with_window_size (n_of_int (int_of_string (Stdlib.String.sub init 1 (Stdlib.String.length init - 1)))) in
-    match s with Panic -> panic_at_init | Val s -> answer (run_native fuel caps rall rs tasks s)
+    match s with Panic -> panic_at_init | Val s -> answer (run_native fuel caps percall rall rs tasks s)
   end
 
 (* ---- parse an answer line back into call records ---- *)
@@ -83,6 +88,43 @@ let s16 line =
       | Some k -> Printf.sprintf "INV call=%d state violates the invariant" k
       | None -> "OK"
 
+(* ---- exhaustive sweeps: one request enumerates 256 second bytes x the given continuations ---- *)
+let hash_str h s = let h = ref h in Stdlib.String.iter (fun c -> h := hmix !h (Char.code c)) s; hmix !h 10
+let chunks_of (m : int list) (sizes : int list) : int list list =
+  let rec take k l = if k = 0 then ([], l) else match l with [] -> ([], []) | x :: t -> let (a, b) = take (k - 1) t in (x :: a, b) in
+  let rec go l sizes = match l with [] -> [] | _ ->
+    (match sizes with
+     | [] -> [l]
+     | s :: st -> let (a, b) = take (max 1 s) l in a :: go b st) in
+  go m sizes
+let fuel_for ntasks total ncaps = (ncaps + 2) * (3 * total + 16 * ntasks + 64)
+let sweep api init restore caps b0 slices conts pre =
+  let conts = Stdlib.List.map (fun c -> if c = "-" then [] else hex_to_ints c) (Stdlib.String.split_on_char ',' conts) in
+  let pre = if pre = "-" then [] else Stdlib.String.split_on_char '+' pre in
+  let pre_total = Stdlib.List.fold_left (fun a t -> if Stdlib.String.length t > 1 && t.[0] = 'C' && t <> "C-" then a + (Stdlib.String.length t - 1) / 2 else a) 0 pre in
+  let capstr = if Stdlib.String.length caps > 2 && Stdlib.String.sub caps 0 2 = "p:" then Stdlib.String.sub caps 2 (Stdlib.String.length caps - 2) else caps in
+  let ncaps = Stdlib.List.length (ints_of_csv capstr) in
+  let slices = ints_of_csv slices in
+  let h = ref 0 and n = ref 0 and bad = ref [] and spec = ref [] and inv = ref [] in
+  for b1 = 0 to 255 do
+    Stdlib.List.iter (fun cont ->
+      let m = b0 :: b1 :: cont in
+      let cs = if slices = [] then [m] else chunks_of m slices in
+      let tasks = pre @ ["F"] @ Stdlib.List.map (fun c -> "C" ^ ints_to_hex c) cs @ ["X"] in
+      let fuel = fuel_for (Stdlib.List.length tasks) (pre_total + Stdlib.List.length m) ncaps in
+      let ans = run_req api init restore caps (string_of_int fuel) tasks in
+      h := hash_str !h ans;
+      let fin = field ans "final" in
+      if fin = "PANIC" || fin = "LOOP" then bad := !n :: !bad;
+      (match s16 ans with
+       | "OK" -> ()
+       | v when Stdlib.String.length v >= 3 && Stdlib.String.sub v 0 3 = "INV" -> inv := !n :: !inv
+       | _ -> spec := !n :: !spec);
+      incr n) conts
+  done;
+  let show l = if l = [] then "-" else Stdlib.String.concat "," (Stdlib.List.rev_map string_of_int l) in
+  Printf.sprintf "n=%d hash=%d bad=%s spec=%s inv=%s" !n !h (show !bad) (show !spec) (show !inv)
+
 let () = iter_lines (fun line ->
   match split_ws line with
   | "RUN" :: api :: init :: restore :: caps :: fuel :: tasks -> print_endline (run_req api init restore caps fuel tasks)
@@ -94,4 +136,11 @@ let () = iter_lines (fun line ->
     let show = function None -> "none" | Some (w, k) -> Printf.sprintf "%d/%d" (int_of_n w) (int_of_n k) in
     let m = (match parse_window_size [n_of_int b0; n_of_int b1] with Panic -> "PANIC" | Val r -> show r) in
     print_endline (Printf.sprintf "%s %s" m (show (rfc_wbits (n_of_int (b0 + 256 * b1)))))
+  | ["SWEEP"; api; init; restore; caps; b0; slices; conts; pre] ->
+    print_endline (sweep api init restore caps (int_of_string b0) slices conts pre)
+  | "CSPEC" :: init :: members ->
+    let ov = if init = "new" then None else Some (n_of_int (int_of_string (Stdlib.String.sub init 1 (Stdlib.String.length init - 1)))) in
+    (match concat_spec ov (Stdlib.List.map ns_of_hex members) with
+     | None -> print_endline "NONE"
+     | Some b -> print_endline ("OK " ^ hex_of_ns b))
   | _ -> print_endline "BADREQ")
